@@ -291,30 +291,57 @@ func stepsOf(fn *ssa.Function, helpers map[*ssa.Function]bool) []devStep {
 	return out
 }
 
-// stateUsed: the state produced by the step is read by something (comparison, conversion, return).
+// stateUsed: the state produced by the step reaches something that matters - a comparison that is branched on, a
+// return, a store, an argument of a call with effects - possibly through the pure state-name mappers and phis. A state
+// that is only converted into a value nobody reads is dropped.
 func stateUsed(st devStep) bool {
 	call := st.call
 	if call.Referrers() == nil {
 		return false
 	}
-	single := call.Type().String() == "string"
-	for _, r := range *call.Referrers() {
-		switch x := r.(type) {
-		case *ssa.DebugRef:
-		case *ssa.Extract:
-			if x.Index == 0 && x.Referrers() != nil {
-				for _, rr := range *x.Referrers() {
-					if _, dbg := rr.(*ssa.DebugRef); !dbg {
+	seen := map[ssa.Value]bool{}
+	var live func(v ssa.Value, depth int) bool
+	live = func(v ssa.Value, depth int) bool {
+		if v == nil || seen[v] || depth > 12 || v.Referrers() == nil {
+			return false
+		}
+		seen[v] = true
+		for _, r := range *v.Referrers() {
+			switch x := r.(type) {
+			case *ssa.DebugRef:
+			case *ssa.Return, *ssa.If, *ssa.Store, *ssa.MapUpdate, *ssa.Send, *ssa.Go, *ssa.Defer, *ssa.Panic:
+				return true
+			case *ssa.Call:
+				n := an.MethodName(&x.Call)
+				if (n == "stateForFmqState" || n == "fmqStateForState" || n == "FromDeviceState") && x.Call.StaticCallee() != nil {
+					if live(x, depth+1) {
 						return true
 					}
+					continue
 				}
+				return true
+			case ssa.Value:
+				if live(x, depth+1) {
+					return true
+				}
+			default:
+				return true
+			}
+		}
+		return false
+	}
+	single := call.Type().String() == "string"
+	if single {
+		return live(call, 0)
+	}
+	for _, r := range *call.Referrers() {
+		switch x := r.(type) {
+		case *ssa.Extract:
+			if x.Index == 0 && live(x, 0) {
+				return true
 			}
 		case *ssa.Return:
 			return true
-		default:
-			if single {
-				return true
-			}
 		}
 	}
 	return false
